@@ -60,7 +60,7 @@ def inconclusive(merged, tier):
     out = []
     if c.get("tokens_observed", 0) == 0:
         out.append("no token was ever observed")
-    for k in ("cases_exhaustive", "cases_exhaustive_init", "cases_recipe", "cases_random", "cases_reuse"):
+    for k in ("cases_exhaustive", "cases_exhaustive_init", "cases_recipe", "cases_random", "cases_reuse", "cases_offgrid"):
         if c.get(k, 0) == 0:
             out.append(f"workload class {k} never ran")
     return out
